@@ -288,6 +288,8 @@ class Metadata(CbMixin, ProgMixin):
                     stop = start + target
                     remainder -= target
                     target -= target
+                    if remainder == 0:
+                        file_index += 1
                 pathnode = PathNode(start=start, stop=stop, **current)
                 piece.append(pathnode)
             while target > 0 and file_index < len(self.files):
@@ -302,6 +304,8 @@ class Metadata(CbMixin, ProgMixin):
                     stop = target
                     remainder = size - target
                     target = 0
+                    if remainder == 0:
+                        file_index += 1
                 pathnode = PathNode(start=start, stop=stop, **current)
                 piece.append(pathnode)
             self.piece_nodes.append(piece)
